@@ -325,7 +325,10 @@ func fairCheck(r *run, primary string, before, after *scheduler.VerifState, even
 	if before == nil || after == nil || fairDrv == nil {
 		return
 	}
-	type got struct{ pq, sc int; ht string }
+	type got struct {
+		pq, sc int
+		ht     string
+	}
 	var picks, handoffs []got
 	for _, ev := range events {
 		f := strings.Fields(ev)
